@@ -385,8 +385,8 @@ fn run_case(seed: u64, idx: usize, out: &mut Out) {
                 }
             }
             // Second chance for the same known-finding class, by pattern (the phantom search above is
-            // capped): a read that BEGAN after a delete had completed returns a version written before
-            // that delete was called, while an insert of any key (whose emergency drain does the repair)
+            // capped): a read that BEGAN after a delete had completed returns a version whose write began
+            // before that delete returned, while an insert of any key (whose emergency drain does the repair)
             // overlaps the window [delete call, read return]. If the history without such reads is
             // linearizable, the resurrection is the only anomaly.
             if cfg.hot_hard <= 2 {
@@ -395,7 +395,9 @@ fn run_case(seed: u64, idx: usize, out: &mut Out) {
                     let OpK::Read(Some((w, _))) = r.op else { return false };
                     let Some(wr) = evs.iter().find(|e| matches!(e.op, OpK::Write(x) if x == w)) else { return false };
                     evs.iter().any(|d| {
-                        matches!(d.op, OpK::Delete) && d.ok && d.ret < r.call && wr.ret < d.call && inserts.iter().any(|i| i.call < r.ret && i.ret > d.call)
+                        // the version could have been current when the delete took effect (its write began
+                        // before the delete returned); the repair may land after a LATER acknowledged write too
+                        matches!(d.op, OpK::Delete) && d.ok && d.ret < r.call && wr.call < d.ret && inserts.iter().any(|i| i.call < r.ret && i.ret > d.call)
                     })
                 };
                 let rest: Vec<Ev> = evs.iter().filter(|e| !explained(e)).cloned().collect();
